@@ -557,6 +557,10 @@ func (r *runner) exec(line string) (cont bool) {
 			}
 		}
 		if f[0] == "backupfile" {
+			if r.imgN%2 == 0 {
+				// the destination already exists and is larger than the snapshot (a backup job reusing one file name)
+				_ = os.WriteFile(dst, bytes.Repeat([]byte{0xee}, int(size)+3*r.ps+777), 0600)
+			}
 			err = tx.CopyFile(dst, 0600)
 			if st, e := os.Stat(dst); e == nil {
 				n = st.Size()
